@@ -2,6 +2,9 @@
 """prints the sub-agent prompt for behaviour-PRESERVING refactorings of the code a property is anchored in (false-alarm probe)"""
 import json, sys
 pid = sys.argv[1]
+k0 = int(sys.argv[2]) if len(sys.argv) > 2 else 1
+num = int(sys.argv[3]) if len(sys.argv) > 3 else 3
+avoid = sys.argv[4] if len(sys.argv) > 4 else ''
 p = [json.loads(l) for l in open('/verif/properties.jsonl') if json.loads(l)['id'] == pid][0]
 print(f"""You are helping test a verification effort for the Python package usnistgov/atomman (NIST atomistic toolkit).
 You have your own scratch git worktree of the repository at /tmp/wt_{pid} (compiled Cython extensions already copied in; Cython and gcc are present if you need to rebuild a .pyx with `cd /tmp/wt_{pid} && /venv/bin/python setup.py build_ext --inplace`).
@@ -15,14 +18,15 @@ Here is a semantic property of atomman that holds for all inputs on the current 
   quantifier: {p['quantifier']['text']}
   files it is anchored in: {', '.join(p['anchors']['files'])}
 
-Your task: produce THREE independent BEHAVIOUR-PRESERVING refactorings of the code this property is anchored in -- the kind of clean-up a maintainer does without intending any change in behaviour: e.g. renaming local variables, reordering independent statements, replacing a loop by an equivalent vectorised expression (or the reverse), extracting a helper function or inlining one, restructuring if/else chains, replacing a chain of conditionals by a table lookup, using an equivalent NumPy call, introducing an early return that provably does the same, splitting a long function. Each refactoring should touch a function that matters for the property (not only comments/docstrings) and change at least ~8 lines. The three should differ in kind and preferably touch different functions.
+Your task: produce {['ONE', 'TWO', 'THREE'][num - 1]} independent BEHAVIOUR-PRESERVING refactoring(s) of the code this property is anchored in -- the kind of clean-up a maintainer does without intending any change in behaviour: e.g. renaming local variables, reordering independent statements, replacing a loop by an equivalent vectorised expression (or the reverse), extracting a helper function or inlining one, restructuring if/else chains, replacing a chain of conditionals by a table lookup, using an equivalent NumPy call, introducing an early return that provably does the same, splitting a long function. Each refactoring should touch a function that matters for the property (not only comments/docstrings) and change at least ~8 lines. The three should differ in kind and preferably touch different functions.
 Hard requirements for each refactoring:
  * Behaviour must be IDENTICAL for all inputs in the property's quantifier (same results up to floating-point round-off of at most a few ulps, same exceptions for the documented refusals, same in-place effects / no new aliasing, same return types and shapes). Do NOT fix bugs, do not change tolerances, do not change public signatures, do not change which exceptions are raised.
  * The existing tests must still pass: `cd /tmp/wt_{pid} && PYTHONPATH=/tmp/wt_{pid} /venv/bin/python -m pytest -q -p no:cacheprovider --timeout=900 -x tests 2>&1 | tail -5` (unmodified tree: 86 passed, 9 skipped).
  * Write an equivalence program `equiv.py` that exercises the refactored functions on a broad, seeded family of inputs from the property's quantifier (including the unusual corners: tilted cells, non-zero origins, every periodicity setting, negative indices, odd shapes, rarely used options, sequences of operations -- whatever applies), records all outputs to a file with full precision, and, given `--compare <file>`, compares a new run against the recorded file. Record on the clean tree, apply the patch, compare: it must report no differences beyond 1e-12 relative. Under 60 s.
-Deliverables, for k = 1, 2, 3:
+Deliverables, for k = {', '.join(str(k0 + i) for i in range(num))}:
    /tmp/refactor_out/{pid}/{pid}_r{{k}}/patch.diff   (output of `git -C /tmp/wt_{pid} diff` for that refactoring alone, applying cleanly with `git apply` to the unmodified tree)
    /tmp/refactor_out/{pid}/{pid}_r{{k}}/equiv.py
    /tmp/refactor_out/{pid}/{pid}_r{{k}}/notes.md     (what was refactored, why it is behaviour-preserving, what you ran and observed)
 Make each refactoring alone starting from the clean tree (`git -C /tmp/wt_{pid} checkout -- .` between them), and leave the worktree clean when you finish. If a .pyx file is changed, rebuild the extension for your verification and rebuild from the clean source afterwards.
+{('Earlier refactorings that were already produced and must NOT be repeated (choose other functions of the anchored files, or a different kind of restructuring): ' + avoid) if avoid else ''}
 Finish with a short report: for each refactoring one paragraph (file/function, what kind of restructuring, why behaviour is unchanged).""")
